@@ -448,12 +448,13 @@ class ForceMatrix:
             non_zero_count = np.count_nonzero(self.matrix, axis=0)
             max_index = np.argmax(non_zero_count)
             b = b - value_to_fix_to * self.matrix[:, max_index]
-            self.matrix = np.delete(self.matrix, max_index, 1)
+            # work on a copy: the stored matrix must survive for later solves
+            reduced_matrix = np.delete(self.matrix, max_index, 1)
         else:
             raise(NotImplementedError)
         
-        mprime = self.matrix.T @ self.matrix
-        b = self.matrix.T @ b
+        mprime = reduced_matrix.T @ reduced_matrix
+        b = reduced_matrix.T @ b
 
         return mprime, b, max_index
 
